@@ -15,6 +15,7 @@ import (
 	"crypto/sha1"
 
 	"github.com/dgryski/go-wyhash"
+	"golang.org/x/tools/go/ssa"
 )
 
 type intrinsic func(w *W, s *State, args []Value) Value
@@ -343,6 +344,17 @@ func init() {
 			w.e.mu.Lock()
 			w.e.bounds[strArg(args[0])] = int64(n)
 			w.e.mu.Unlock()
+			return TupleV{}
+		},
+		zz + "PreemptAtSync": func(w *W, s *State, args []Value) Value {
+			n, _ := concInt(args[0])
+			s.preemptsLeft = n
+			return TupleV{}
+		},
+		zz + "Preempt": func(w *W, s *State, args []Value) Value {
+			if w.preemptChoice(s) {
+				w.preemptNow(s)
+			}
 			return TupleV{}
 		},
 		zz + "SearchOnReplay": func(w *W, s *State, args []Value) Value {
@@ -1432,13 +1444,58 @@ func tryLockW(w *W, s *State, args []Value) Value {
 	return TrueT
 }
 func unlockW(w *W, s *State, args []Value) Value {
+	pre := w.preemptChoice(s)
 	k := ptrKey(args[0].(PtrV))
 	if s.locks[k] != -1 {
 		panic(pathEnd{"panic: sync: unlock of unlocked mutex"})
 	}
 	s.setLock(k, 0)
 	s.progress++
+	if pre {
+		w.preemptNow(s)
+	}
 	return TupleV{}
+}
+
+// preemptChoice: with preemption enabled (zz.PreemptAtSync) and another goroutine runnable, the
+// scheduler may switch the running goroutine out at this point: a fresh schedule choice that the
+// engine forks on. It must be called before the instruction mutates the state (decide re-executes
+// the instruction); preemptNow performs the switch once the instruction's effect is in place.
+func (w *W) preemptChoice(s *State) bool {
+	if s.preemptsLeft <= 0 || len(s.gs) < 2 {
+		return false
+	}
+	// only at an ordinary call instruction: a deferred unlock runs inside RunDefers, where the
+	// frame cannot be resumed "after the call"
+	fr := s.top()
+	if fr.pc >= len(fr.block.Instrs) {
+		return false
+	}
+	if _, isCall := fr.block.Instrs[fr.pc].(*ssa.Call); !isCall {
+		return false
+	}
+	other := false
+	for i, g := range s.gs {
+		if i != s.cur && !g.done && (g.blockedAt < 0 || g.blockedAt < s.progress) {
+			other = true
+		}
+	}
+	if !other {
+		return false
+	}
+	name := fmt.Sprintf("preempt#%d", s.ndBase+len(s.nondets))
+	v := Var(name, BoolSort)
+	b := w.decide(s, v)
+	s.nondets = append(s.nondets, NondetRec{Name: name, Kind: "sched", T: v})
+	w.e.noteModel("preemption at synchronisation points (bounded)")
+	return b
+}
+
+func (w *W) preemptNow(s *State) {
+	s.preemptsLeft--
+	s.top().pc++
+	s.progress++
+	panic(blockReq{"yield"})
 }
 func lockR(w *W, s *State, args []Value) Value {
 	k := ptrKey(args[0].(PtrV))
